@@ -79,11 +79,13 @@ def cvode_passes(tier):
         # positions {1,2,mid,last-1,last} on every level, both ends of the recoverable range + reset + two fatal flags
         P.append(("T1", 1, 0, [-1, -6, -5], [0.5], [0], 0, 3.15e7))
         P.append(("T3", 3, 0, [-1, -2, -3, -4, -5, -6, -7, -8], [0.0, 0.5], [0, 99], 1, 1.0))
+        for dt in (1e-12, 1e30):  # the interval is a number, not a number of seconds: tiny and huge values too
+            P.append((f"T3@{dt:g}", 3, 0, [-1, -6, -5], [0.5], [0], 1, dt))
         for lvl in (1, 5):
             P.append((f"T2.{lvl}", 2, lvl, [-1, -6, -5], [0.5], [0], 0, 1e-3))
     else:
         P.append(("T1", 1, 0, [-1, -4, -6, -5, -7], [0.0, 0.5], [0], 0, 3.15e7))
-        for dt in (1.0, 3.15e7, 1e-3):
+        for dt in (1.0, 3.15e7, 1e-3, 1e-12, 1e30):
             P.append((f"T3@{dt:g}", 3, 0, [-1, -2, -3, -4, -5, -6, -7, -8], [0.0, 0.5, 1 - 2.0**-20], [0, 99], 1, dt))
         for lvl in (1, 2, 3, 4, 5):
             for dt in (1.0, 3.15e7, 1e-3):
